@@ -189,7 +189,14 @@ def child_setup_factory(root, me):
             lockmod.fcntl = LockProxy()
             holder.pop("fmmu").remove()
             return None
-        return {"start": start, "stop": stop, "fmmu_new": fmmu_new, "fmmu_remove": fmmu_remove}
+        def mbx(no):
+            """one mailbox exchange of this (running) participant with terminal `no`: the counter the message carries"""
+            async def one():
+                lock = ec.get_mbx_lock(no)
+                async with lock:
+                    return lock.next_counter()
+            return loop.run_until_complete(one())
+        return {"start": start, "stop": stop, "fmmu_new": fmmu_new, "fmmu_remove": fmmu_remove, "mbx": mbx}
     return setup
 
 
